@@ -6,9 +6,12 @@ import (
 	"sort"
 	"strconv"
 	"strings"
+	"sync"
+	"sync/atomic"
 	"testing"
 	"testing/synctest"
 	"time"
+	"unsafe"
 )
 
 // C14: TransientData (transient_data.go) against Model/Transient.lean, under the
@@ -185,43 +188,144 @@ func vC14Dur(tok string) time.Duration {
 	return time.Duration(v)
 }
 
-// apply runs one API op (not adv/late) and returns the return-value token.
-func (w *vC14World) apply(f []string) (string, bool) {
+// prep parses one API op (not adv/late); the returned closure performs it on the
+// real store and yields the return-value token.  Every such op takes the store
+// mutex exactly once.
+func (w *vC14World) prep(f []string) (func() string, bool) {
 	td := w.td
+	if len(f) == 0 {
+		return nil, false
+	}
 	switch {
 	case f[0] == "set" && len(f) == 4:
-		return vC14Bool(td.SetTTL(vDec(f[1]), vC14Value(f[2]), vC14Dur(f[3]))), true
+		return func() string { return vC14Bool(td.SetTTL(vDec(f[1]), vC14Value(f[2]), vC14Dur(f[3]))) }, true
 	case f[0] == "set0" && len(f) == 3:
-		return vC14Bool(td.Set(vDec(f[1]), vC14Value(f[2]))), true
+		return func() string { return vC14Bool(td.Set(vDec(f[1]), vC14Value(f[2]))) }, true
 	case f[0] == "cas" && len(f) == 5:
-		return vC14Bool(td.CompareAndSetTTL(vDec(f[1]), vC14Value(f[2]), vC14Value(f[3]), vC14Dur(f[4]))), true
+		return func() string {
+			return vC14Bool(td.CompareAndSetTTL(vDec(f[1]), vC14Value(f[2]), vC14Value(f[3]), vC14Dur(f[4])))
+		}, true
 	case f[0] == "cas0" && len(f) == 4:
-		return vC14Bool(td.CompareAndSet(vDec(f[1]), vC14Value(f[2]), vC14Value(f[3]))), true
+		return func() string { return vC14Bool(td.CompareAndSet(vDec(f[1]), vC14Value(f[2]), vC14Value(f[3]))) }, true
 	case f[0] == "rm" && len(f) == 2:
-		return vC14Bool(td.Remove(vDec(f[1]))), true
+		return func() string { return vC14Bool(td.Remove(vDec(f[1]))) }, true
 	case f[0] == "casrm" && len(f) == 3:
-		return vC14Bool(td.CompareAndRemove(vDec(f[1]), vC14Value(f[2]))), true
-	case f[0] == "add" && len(f) == 2:
+		return func() string { return vC14Bool(td.CompareAndRemove(vDec(f[1]), vC14Value(f[2]))) }, true
+	case (f[0] == "add" || f[0] == "del") && len(f) == 2:
 		id, err := strconv.Atoi(f[1])
-		if err != nil {
-			return "", false
+		if err != nil || id < 0 {
+			return nil, false
 		}
-		td.AddListener(w.listener(id))
-		return "-", true
-	case f[0] == "del" && len(f) == 2:
-		id, err := strconv.Atoi(f[1])
-		if err != nil {
-			return "", false
+		l := w.listener(id)
+		if f[0] == "add" {
+			return func() string { td.AddListener(l); return "-" }, true
 		}
-		td.RemoveListener(w.listener(id))
-		return "-", true
+		return func() string { td.RemoveListener(l); return "-" }, true
 	case f[0] == "get" && len(f) == 1:
-		return "-", true
+		return func() string { td.GetData(); return "-" }, true
 	}
-	return "", false
+	return nil, false
+}
+
+// vC14Waiters reads the number of goroutines queued on a sync.Mutex (state >> mutexWaiterShift).
+func vC14Waiters(mu *sync.Mutex) int32 {
+	return atomic.LoadInt32((*int32)(unsafe.Pointer(mu))) >> 3
+}
+
+func vC14WaitWaiters(mu *sync.Mutex, n int32) bool {
+	deadline := time.Now().Add(5 * time.Second)
+	for vC14Waiters(mu) < n {
+		if time.Now().After(deadline) {
+			return false
+		}
+		time.Sleep(100 * time.Microsecond)
+	}
+	return true
+}
+
+// late realises the one timing that virtual time cannot produce: the expiry
+// callback of a timer has already been started by the runtime (Stop() comes too
+// late) but runs only after another API call <a>, because that call got the
+// store mutex first.  Real clock, real timer:
+//
+//	SetTTL(key, val, ttl); the harness takes t.mu; <a> is started and queues on
+//	t.mu; the timer fires, its callback queues behind <a>; the harness releases
+//	t.mu (FIFO: <a> runs, then the callback).
+//
+// Model: the ops  set key val ttl ; fire ttl ; <a> ; runCb <that timer>.
+func (w *vC14World) late(f []string) string {
+	if len(f) < 5 || f[2] == vC14Nil {
+		return "bad-op"
+	}
+	ttl := vC14Dur(f[3])
+	if ttl <= 0 || ttl > 50*time.Millisecond {
+		return "bad-op"
+	}
+	td := w.td
+	op, ok := w.prep(f[4:])
+	if !ok {
+		return "bad-op"
+	}
+	td.SetTTL(vDec(f[1]), vC14Value(f[2]), ttl)
+	td.mu.Lock()
+	if td.data[vDec(f[1])] == nil {
+		// the harness was descheduled for longer than the ttl: not the timing asked for
+		td.mu.Unlock()
+		return "late-failed:callback-ran-early"
+	}
+	ch := make(chan struct{}, 64)
+	td.ttlCh = ch
+	done := make(chan string, 1)
+	go func() { done <- op() }()
+	// <a> queues on t.mu — or completes at once if it does not need t.mu (RemoveListener)
+	r, aDone := "", false
+	deadline := time.Now().Add(5 * time.Second)
+	for !aDone && vC14Waiters(&td.mu) < 1 {
+		select {
+		case r = <-done:
+			aDone = true
+		default:
+			if time.Now().After(deadline) {
+				td.mu.Unlock()
+				<-done
+				return "late-failed:op-not-queued"
+			}
+			time.Sleep(100 * time.Microsecond)
+		}
+	}
+	want := int32(2)
+	if aDone {
+		want = 1
+	}
+	if !vC14WaitWaiters(&td.mu, want) { // the callback has fired and is queued behind <a>
+		td.mu.Unlock()
+		if !aDone {
+			<-done
+		}
+		return "late-failed:timer-did-not-fire"
+	}
+	td.mu.Unlock()
+	if !aDone {
+		r = <-done
+	}
+	select {
+	case <-ch: // the callback has done its work (it signals before releasing the mutex)
+	case <-time.After(5 * time.Second):
+		return "late-failed:callback-did-not-run"
+	}
+	td.mu.Lock()
+	td.ttlCh = nil
+	td.mu.Unlock()
+	return w.observe(r)
 }
 
 func vC14Exec(t *testing.T, c *vCase) {
+	for _, line := range c.Ops {
+		if strings.HasPrefix(line, "late ") || strings.HasPrefix(line, "conc ") {
+			vC14ExecReal(c)
+			return
+		}
+	}
 	synctest.Test(t, func(t *testing.T) {
 		w := &vC14World{td: NewTransientData(), listeners: map[int]*vC14Listener{}}
 		for _, line := range c.Ops {
@@ -236,7 +340,8 @@ func vC14Exec(t *testing.T, c *vCase) {
 					synctest.Wait()
 					out = w.observe("-")
 				default:
-					if r, ok := w.apply(f); ok {
+					if op, ok := w.prep(f); ok {
+						r := op()
 						synctest.Wait()
 						out = w.observe(r)
 					}
@@ -250,10 +355,152 @@ func vC14Exec(t *testing.T, c *vCase) {
 	})
 }
 
+// vC14ExecReal runs a case containing `late` ops on the real clock.  Such cases
+// have no `adv` and every other ttl is zero, negative or at least an hour, so
+// the only timers that ever fire are those of the `late` ops.
+func vC14ExecReal(c *vCase) {
+	// the choreography of `late` depends on the harness not being descheduled for
+	// longer than the ttl right after SetTTL; if that happens the case is run again
+	for attempt := 0; ; attempt++ {
+		w := &vC14World{td: NewTransientData(), listeners: map[int]*vC14Listener{}}
+		var impl []string
+		failed := false
+		for _, line := range c.Ops {
+			f := strings.Fields(line)
+			out := "bad-op"
+			if len(f) > 0 {
+				if f[0] == "late" {
+					out = w.late(f)
+					if strings.HasPrefix(out, "late-failed:callback-ran-early") {
+						failed = true
+					}
+				} else if f[0] == "conc" && len(f) == 3 {
+					out = vC14Conc(f)
+				} else if op, ok := w.prep(f); ok {
+					out = w.observe(op())
+				}
+			}
+			impl = append(impl, out)
+			if failed {
+				break
+			}
+		}
+		w.td.mu.Lock()
+		for _, tm := range w.td.timers {
+			tm.Stop()
+		}
+		w.td.mu.Unlock()
+		if !failed || attempt >= 4 {
+			c.Impl = impl
+			return
+		}
+	}
+}
+
+// ---------- real goroutines ----------
+
+// vC14LockedListener is a listener whose SendMessage takes a mutex of its own
+// (as ClientSession.SendMessage takes the session mutex).
+type vC14LockedListener struct {
+	mu   sync.Mutex
+	msgs []string
+	rec  vC14Listener
+}
+
+func (l *vC14LockedListener) SendMessage(message *ServerMessage) bool {
+	l.mu.Lock()
+	defer l.mu.Unlock()
+	l.rec.msgs = nil
+	l.rec.SendMessage(message)
+	l.msgs = append(l.msgs, l.rec.msgs...)
+	return true
+}
+
+// vC14Conc: `conc <seed> <n>` — on a fresh store two writers issue n random
+// requests each (no ttl that could fire) while a third goroutine makes a
+// listener leave and re-join the way a session does (RemoveListener is called
+// with the listener's own mutex held).  Listeners 1 and 3 stay registered from
+// before the first request: the sequence each of them received, applied to
+// nothing, must give the final data (judged by the Lean spec, not here).
+// A watchdog reports a hang.
+func vC14Conc(f []string) string {
+	seed, err1 := strconv.ParseUint(f[1], 10, 64)
+	n, err2 := strconv.Atoi(f[2])
+	if err1 != nil || err2 != nil || n < 0 || n > 5000 {
+		return "bad-op"
+	}
+	td := NewTransientData()
+	ls := []*vC14LockedListener{{}, {}, {}}
+	td.AddListener(ls[0])
+	td.AddListener(ls[2])
+	var wg sync.WaitGroup
+	writer := func(r *vRand) {
+		defer wg.Done()
+		for i := 0; i < n; i++ {
+			k := vC14Keys[r.intn(2)]
+			v := vC14Value(vC14Enc(vC14Vals[r.intn(3)]))
+			var ttl time.Duration
+			if r.chance(1, 3) {
+				ttl = time.Hour + time.Duration(r.intn(1000))
+			}
+			switch r.intn(6) {
+			case 0, 1, 2:
+				td.SetTTL(k, v, ttl)
+			case 3:
+				td.Remove(k)
+			case 4:
+				td.CompareAndSetTTL(k, vC14Value(vC14Enc(vC14Vals[r.intn(3)])), v, ttl)
+			default:
+				td.CompareAndRemove(k, v)
+			}
+		}
+	}
+	churn := func(r *vRand) {
+		defer wg.Done()
+		l := ls[1]
+		for i := 0; i < n; i++ {
+			td.AddListener(l)
+			if r.chance(1, 2) {
+				td.GetData()
+			}
+			l.mu.Lock() // LeaveRoom: session mutex held while the listener is removed
+			td.RemoveListener(l)
+			l.mu.Unlock()
+		}
+	}
+	base := newVRand(seed)
+	wg.Add(3)
+	go writer(base.fork())
+	go writer(base.fork())
+	go churn(base.fork())
+	fin := make(chan struct{})
+	go func() { wg.Wait(); close(fin) }()
+	select {
+	case <-fin:
+	case <-time.After(20 * time.Second):
+		return "conc hang"
+	}
+	td.mu.Lock()
+	for _, tm := range td.timers {
+		tm.Stop()
+	}
+	td.mu.Unlock()
+	parts := []string{"conc"}
+	for _, i := range []int{0, 2} {
+		ls[i].mu.Lock()
+		if len(ls[i].msgs) > 0 {
+			parts = append(parts, fmt.Sprintf("L%d:%s", i+1, strings.Join(ls[i].msgs, ";")))
+		}
+		ls[i].mu.Unlock()
+	}
+	parts = append(parts, "d="+vC14DataString(td.GetData()))
+	return strings.Join(parts, " ")
+}
+
 // ---------- generator ----------
 
-var vC14Keys = []string{"a", "b", "callstatus_1"}
-var vC14Vals = []string{"s:v0", "s:v1", "j:{\"x\":1}", "n:7"}
+var vC14Keys = []string{"a", "b", "callstatus_1", "", "k=1,x;y"}
+var vC14Vals = []string{"s:v0", "s:v1", "j:{\"x\":1}", "n:7", "m:cleared", "l:v0", "s:"}
 
 const (
 	vC14Short = int64(20 * time.Millisecond)
@@ -262,14 +509,20 @@ const (
 
 func vC14Gen(e *vEnv, r *vRand) []vCase {
 	var cases []vCase
-	n := e.scale(300, 6000)
+	n := e.scale(600, 6000)
 	maxOps := e.scale(25, 80)
 	for i := 0; i < n; i++ {
 		rr := r.fork()
 		var ops []string
 		serial := int64(0)
-		nk := 1 + rr.intn(len(vC14Keys))
-		nv := 2 + rr.intn(len(vC14Vals)-1)
+		nk := 1 + rr.intn(3)
+		if rr.chance(1, 5) {
+			nk = 1 + rr.intn(len(vC14Keys))
+		}
+		nv := 2 + rr.intn(3)
+		if rr.chance(1, 5) {
+			nv = 2 + rr.intn(len(vC14Vals)-1)
+		}
 		key := func() string { return vC14Enc(vC14Keys[rr.intn(nk)]) }
 		val := func() string { return vC14Enc(vC14Vals[rr.intn(nv)]) }
 		valOrNil := func(p int) string {
@@ -314,9 +567,9 @@ func vC14Gen(e *vEnv, r *vRand) []vCase {
 			case k < 59:
 				ops = append(ops, fmt.Sprintf("casrm %s %s", key(), valOrNil(10)))
 			case k < 68:
-				ops = append(ops, fmt.Sprintf("add %d", 1+rr.intn(3)))
+				ops = append(ops, fmt.Sprintf("add %d", 1+rr.intn(4)))
 			case k < 73:
-				ops = append(ops, fmt.Sprintf("del %d", 1+rr.intn(3)))
+				ops = append(ops, fmt.Sprintf("del %d", 1+rr.intn(4)))
 			case k < 75:
 				ops = append(ops, "get")
 			default:
@@ -352,6 +605,76 @@ func vC14Gen(e *vEnv, r *vRand) []vCase {
 		}
 		ops = append(ops, fmt.Sprintf("adv %d", 2*vC14Long), "get")
 		cases = append(cases, vCase{Ops: ops})
+	}
+	// callbacks that have fired but run only after another call (real clock, see vC14World.late)
+	nl := e.scale(40, 400)
+	for i := 0; i < nl; i++ {
+		rr := r.fork()
+		var ops []string
+		serial := int64(0)
+		nk := 1 + rr.intn(2)
+		key := func() string { return vC14Enc(vC14Keys[rr.intn(nk)]) }
+		val := func() string { return vC14Enc(vC14Vals[rr.intn(3)]) }
+		valOrNil := func(p int) string {
+			if rr.chance(p, 100) {
+				return vC14Nil
+			}
+			return val()
+		}
+		ttl := func() int64 { // never fires within the case
+			serial++
+			switch rr.intn(4) {
+			case 0:
+				return 0
+			case 1:
+				return -1
+			default:
+				return int64(time.Hour) + serial*1000
+			}
+		}
+		api := func(k string) string {
+			switch x := rr.intn(100); {
+			case x < 40:
+				return fmt.Sprintf("set %s %s %d", k, valOrNil(8), ttl())
+			case x < 50:
+				return fmt.Sprintf("set0 %s %s", k, val())
+			case x < 65:
+				return fmt.Sprintf("cas %s %s %s %d", k, valOrNil(20), valOrNil(10), ttl())
+			case x < 73:
+				return "rm " + k
+			case x < 80:
+				return fmt.Sprintf("casrm %s %s", k, val())
+			case x < 88:
+				return fmt.Sprintf("add %d", 1+rr.intn(2))
+			case x < 94:
+				return fmt.Sprintf("del %d", 1+rr.intn(2))
+			default:
+				return "get"
+			}
+		}
+		nops := 2 + rr.intn(e.scale(8, 16))
+		lates := 0
+		for len(ops) < nops {
+			if rr.chance(2, 5) || (len(ops) == nops-1 && lates == 0) {
+				k := key()
+				ak := k
+				if rr.chance(1, 4) {
+					ak = key()
+				}
+				lates++
+				ops = append(ops, fmt.Sprintf("late %s %s %d %s", k, val(), 3*int64(time.Millisecond), api(ak)))
+			} else {
+				ops = append(ops, api(key()))
+			}
+		}
+		ops = append(ops, "get")
+		cases = append(cases, vCase{Ops: ops, Tags: []string{"late"}})
+	}
+	// real goroutines: writers against a listener that leaves and re-joins like a session
+	nc := e.scale(20, 300)
+	for i := 0; i < nc; i++ {
+		cases = append(cases, vCase{Ops: []string{fmt.Sprintf("conc %d %d", r.u64()%1000000, 20+r.intn(e.scale(60, 400)))},
+			Tags: []string{"conc"}})
 	}
 	return cases
 }
